@@ -312,10 +312,15 @@ func checkC14(c C14Case) h.Outcome {
 		}
 	}
 	if !signed {
-		if len(saml["SigAlg"]) != 0 || len(saml["Signature"]) != 0 {
-			o.Violation = h.V("unexpected-query-signature/"+c.Flow, "SigAlg / Signature present although signing does not apply")
+		if len(saml["SigAlg"]) == 0 && len(saml["Signature"]) == 0 {
+			return o
 		}
-		return o
+		// the property does not forbid a signature where none is required, but a present one must be right
+		if _, ok := expectedSigner(c.SP); !ok {
+			o.Violation = h.V("query-signature-without-key/"+c.Flow, "SigAlg / Signature present although the SP has no key")
+			return o
+		}
+		o.Classes = append(o.Classes, "unrequired-query-signature")
 	}
 	// ---- signature over the exact octets
 	if len(saml["SigAlg"]) != 1 || len(saml["Signature"]) != 1 {
